@@ -790,6 +790,18 @@ Theorem C03_cp_prog_link : forall (F : Type) (w : option (tensor F)) (fs : list 
   run_cp cp_prog (option_map (@shape F) w) (map (@shape F) fs) = validate_cp w fs.
 Proof. exact cp_prog_link. Qed.
 Print Assumptions C03_cp_prog_link.
+(* PARAFAC2: the orthonormality test of the source (max |P^T P - I| > 1e-5; the threshold is regenerated and must lie in (0,1)) is the
+   interpreter's oracle, instantiated with the model's exact test *)
+Theorem C03_p2_prog_link : forall (F : Type) (Op : fops F) (w : option (tensor F)) (fs ps : list (tensor F)),
+  run_p2 p2_prog (option_map (@shape F) w) (map (@shape F) fs) (map (@shape F) ps) (fun r i => orthonormalb Op (nth i ps (mk [] [])) r)
+  = validate_parafac2 Op w fs ps.
+Proof. exact p2_prog_link. Qed.
+Print Assumptions C03_p2_prog_link.
+Example C03_run_p2_example :
+  run_p2 p2_prog (Some [1]) [[2; 1]; [1; 1]; [2; 1]] [[2; 1]; [1; 1]] (fun _ _ => true) = Ok ([[2; 2]; [1; 2]], 1) /\
+  run_p2 p2_prog None [[2; 1]; [1; 1]; [2; 1]] [[2; 1]; [1; 1]] (fun _ i => i =? 0) = Err /\
+  run_p2 p2_prog None [[2; 1]; [1; 1]] [[2; 1]; [1; 1]] (fun _ _ => true) = Err.
+Proof. repeat split; reflexivity. Qed.
 Example C03_run_tk_cp_example :
   run_tk tucker_prog [2; 2] [[3; 2]; [1; 2]] = Ok ([3; 1], [2; 2]) /\ run_tk tucker_prog [2; 2] [[3; 2]; [1; 3]] = Err /\
   run_cp cp_prog (Some [2]) [[3; 2]; [4; 2]] = Ok ([3; 4], 2) /\ run_cp cp_prog None [[3]; [4]] = Ok ([3; 4], 1) /\ run_cp cp_prog (Some [2; 1]) [[3; 2]] = Err.
@@ -840,3 +852,20 @@ Example C03_tt_neg_modes_example :
   unfolded_neg Zops (tt_to_tensor Zops cs) 1 = tt_to_unfolded Zops cs 1 /\ unfolded_neg Zops (tt_to_tensor Zops cs) 2 = tt_to_unfolded Zops cs 0 /\
   unfolded_neg Zops (tt_to_tensor Zops cs) 3 = Err.
 Proof. cbv zeta. repeat split; vm_compute; reflexivity. Qed.
+
+(* ------------------------------------------------------------------ tucker_to_tensor(modes=...) *)
+(* tucker_to_tensor_modes core fs ms models tucker_to_tensor((core, fs), modes=ms) for matrix factors and pairwise distinct modes:
+   the default modes=None is modes = range(len(factors)), and a tensor is returned only if every factor fits the core along ITS mode *)
+Theorem C03_tucker_modes_default : forall (F : Type) (Op : fops F) (core : tensor F) (fs : list (tensor F)),
+  tucker_to_tensor_modes Op core fs (seq 0 (length fs)) = tucker_to_tensor Op core fs None false.
+Proof. exact tucker_modes_default. Qed.
+Print Assumptions C03_tucker_modes_default.
+Theorem C03_tucker_modes_ok_fits : forall (F : Type) (Op : fops F) (Ms : list (tensor F)) (ms : list nat) (T t : tensor F),
+  length ms = length Ms -> NoDup ms -> multi_mode_dot_modes Op T Ms ms = Ok t ->
+  Forall2 (fun (M : tensor F) m => ndim M = 2 /\ m < ndim T /\ ncols M = nth m (shape T) 0) Ms ms.
+Proof. exact tucker_modes_ok_fits. Qed.
+Print Assumptions C03_tucker_modes_ok_fits.
+Example C03_tucker_modes_example :
+  tucker_to_tensor_modes Zops (mk [2; 2] [1; 0; -1; 2]%Z) [mk [3; 2] [1; 2; 3; 4; 5; 6]%Z] [1] = Ok (mk [2; 3] [1; 3; 5; 3; 5; 7]%Z) /\
+  tucker_to_tensor_modes Zops (mk [2; 2] [1; 0; -1; 2]%Z) [mk [3; 2] [1; 2; 3; 4; 5; 6]%Z] [2] = Err.
+Proof. split; vm_compute; reflexivity. Qed.
